@@ -216,7 +216,11 @@ def apply(op, f1, wd, state):
         # the merger keeps its inputs open read-only, so they are read from a copy of the file and the result is appended to F1
         src = os.path.join(wd, "F1.inputs.cool")
         shutil.copy(f1, src)
-        cooler.merge_coolers(f1 + "::" + p, [src + "::" + a, src + "::" + b], mergebuf=2, mode="a")
+        # an EMPTY member on the same axes sits between the two inputs (it must contribute nothing and disturb nothing)
+        cooler.coarsen_cooler  # noqa (keeps the import obviously used)
+        eb = cur_bins(state[a])
+        cooler.create_cooler(src + "::/__empty__", build.bins_df(eb), pixframe({}), ordered=True, symmetric_upper=state[a][1], mode="a")
+        cooler.merge_coolers(f1 + "::" + p, [src + "::" + a, src + "::/__empty__", src + "::" + b, src + "::/__empty__"], mergebuf=2, mode="a")
         os.remove(src)
         st[p] = (state[a][0], state[a][1], models.ref_merge([state[a][2], state[b][2]]), state[a][3])
         outs.append((f1, p))
